@@ -33,6 +33,7 @@ type Obl struct {
 }
 
 type Enc struct {
+	alias      map[string]string
 	watchQ     []watchItem
 	globSlices []string
 	symAt      map[string]int // symbol -> number of lines when it was introduced
